@@ -4690,9 +4690,6 @@ func (t *Terminal) Loop() error {
 						info = true
 					case reqList:
 						t.printList()
-						if verifOn {
-							verifTermRender(t, "list")
-						}
 						currentIndex := t.currentIndex()
 						focusChanged := focusedIndex != currentIndex
 						if focusChanged && focusedIndex >= 0 && t.track == trackCurrent {
@@ -4710,6 +4707,9 @@ func (t *Terminal) Loop() error {
 							version = t.version
 							focusedIndex = currentIndex
 							refreshPreview(t.previewOpts.command)
+						}
+						if verifOn {
+							verifTermRender(t, "list")
 						}
 					case reqJump:
 						if t.merger.Length() == 0 {
